@@ -11,6 +11,7 @@ import ast
 from staticlib.common import AnalysisError
 from staticlib.session import get_session
 from staticlib.srcmodel import find_function, walk_own
+from staticlib.guards import Dominance
 
 VALIDATORS = ["_fail_if_group_variables_not_constant_within_groups", "_fail_if_pid_is_non_unique", "_fail_if_foreign_keys_are_invalid"]
 PROPERTY_POINTERS = ["p_id_ehepartner", "p_id_einstandspartner", "p_id_elternteil_1", "p_id_elternteil_2"]
@@ -209,10 +210,13 @@ def validators(ctx, repo, itf):
                         if isinstance(x, ast.Name):
                             derived.add(x.id)
         ok = False
+        dom = Dominance(fd)
         for n in walk_own(fd):
-            if isinstance(n, ast.If) and any(isinstance(x, ast.Raise) for b in (n.body, n.orelse) for st in b for x in ast.walk(st)):
-                if any(isinstance(x, ast.Name) and x.id in derived for x in ast.walk(n.test)):
-                    ok = True
+            if isinstance(n, ast.Raise):
+                # dominating conditions include guard clauses (`if fine: continue/return` before the raise)
+                for test, _pol in dom.of(n):
+                    if any(isinstance(x, ast.Name) and x.id in derived for x in ast.walk(test)):
+                        ok = True
         ctx.ob("F2", ok=ok, distinct=v)
         if not ok:
             ctx.violation("F2", f"{v}|never-raises", itf.loc(fd) + f" {v}", f"{v} contains no `raise` under a condition on its argument: the malformed input it is named after is accepted")
